@@ -533,6 +533,7 @@ type Contract struct {
 	Pure       bool // no heap effects at all (no allocation either)
 	Lemmas     []string // auto lemmas assumed (as quantified facts) while verifying this function
 	Allocates  []string
+	StoreLinks bool // also introduce post-store reads from pre-store reads (quantifier instantiation aid)
 	Where      string
 }
 
@@ -586,7 +587,7 @@ var clauseKW = map[string]bool{
 	"func": true, "ghost": true, "lemma": true, "axiom": true, "requires": true, "ensures": true,
 	"modifies": true, "invariant": true, "decreases": true, "loop": true, "floats": true,
 	"inline": true, "trusted": true, "panics": true, "at": true, "use": true, "obligations": true,
-	"induction": true, "nosafety": true, "withinlen": true, "allocates": true, "trigger": true, "lemmas": true, "unreachable": true, "pure": true, "package": true, "opaque": true,
+	"induction": true, "nosafety": true, "withinlen": true, "allocates": true, "trigger": true, "lemmas": true, "unreachable": true, "pure": true, "package": true, "opaque": true, "storelinks": true,
 }
 
 // ParseSpecText parses contract text (already stripped of //@ prefixes); pkg is the
@@ -860,6 +861,10 @@ func (ss *SpecSet) ParseSpecText(lines []string, wheres []string, pkg string) er
 		case "pure":
 			if cur != nil {
 				cur.Pure = true
+			}
+		case "storelinks":
+			if cur != nil {
+				cur.StoreLinks = true
 			}
 		case "panics":
 			t := strings.TrimSpace(strings.TrimPrefix(strings.TrimSpace(rc.text), "when"))
